@@ -1,4 +1,6 @@
 // ---- property C12: what a CEL string / bytes literal denotes (written from the CEL language definition and CEL.g4) ----
+pub mod lit_ax {
+    use super::*;
 /// code point <-> char (ASSUMED bijection on Unicode scalar values; `char::from_u32` is its partial inverse)
 pub uninterp spec fn chr(v: int) -> char;
 pub open spec fn is_scalar(v: int) -> bool { (0 <= v < 0xD800) || (0xE000 <= v <= 0x10FFFF) }
@@ -11,6 +13,8 @@ pub broadcast proof fn axiom_char_of_chr(v: int)
     requires is_scalar(v)
     ensures (#[trigger] chr(v)) as int == v
 {}
+}
+pub use lit_ax::{chr, is_scalar};
 pub open spec fn hexd(c: char) -> Option<int> {
     if '0' <= c && c <= '9' { Some(c as int - '0' as int) } else if 'a' <= c && c <= 'f' { Some(c as int - 'a' as int + 10) }
     else if 'A' <= c && c <= 'F' { Some(c as int - 'A' as int + 10) } else { None }
@@ -98,3 +102,38 @@ pub open spec fn raw_triple_tok(t: Seq<char>) -> bool {
     && t[t.len() - 1] == t[1] && t[t.len() - 2] == t[1] && t[t.len() - 3] == t[1]
 }
 pub open spec fn raw_triple_body(t: Seq<char>) -> Seq<char> { t.subrange(4, t.len() - 3) }
+/// the scan of a raw body pairs every backslash with the character after it; false when the body ends in an unpaired backslash
+pub open spec fn raw_scan_ok(t: Seq<char>) -> bool
+    decreases t.len()
+{
+    if t.len() == 0 { true } else if t[0] == '\\' { t.len() >= 2 && raw_scan_ok(t.skip(2)) } else { raw_scan_ok(t.skip(1)) }
+}
+// ---- bytes literals ----
+/// UTF-8 encoding of one character (ASSUMED std `char::encode_utf8`; only its length is interpreted)
+pub uninterp spec fn utf8_bytes(c: char) -> Seq<u8>;
+pub open spec fn utf8_len(c: char) -> nat { if (c as u32) < 0x80 { 1 } else if (c as u32) < 0x800 { 2 } else if (c as u32) < 0x10000 { 3 } else { 4 } }
+/// escape at the front of a bytes body: (characters consumed, byte).  `\u` / `\U` are not allowed in bytes literals.
+pub open spec fn esc_byte(t: Seq<char>) -> Option<(int, int)> {
+    if t.len() < 2 { None } else {
+        let k = t[1];
+        if simple_esc(k) is Some { Some((2, simple_esc(k)->Some_0)) }
+        else if k == 'x' || k == 'X' { if t.len() >= 4 && hex_val(t.subrange(2, 4)) is Some { Some((4, hex_val(t.subrange(2, 4))->Some_0)) } else { None } }
+        else if '0' <= k && k <= '3' { if t.len() >= 4 && oct_val3(t[1], t[2], t[3]) is Some { Some((4, oct_val3(t[1], t[2], t[3])->Some_0)) } else { None } }
+        else { None }
+    }
+}
+/// the body of a (non-raw) bytes token as the lexer delivers it: every backslash starts a complete escape form
+/// (`\u`, `\U` included: they lex, but denote nothing in a bytes literal)
+pub open spec fn wf_bytes_body(t: Seq<char>) -> bool { wf_body(t, None) }
+/// THE MEANING of a bytes body: escapes denote one byte each, other characters their UTF-8 encoding; `\u`/`\U` are errors
+pub open spec fn dec_bytes(t: Seq<char>) -> Option<Seq<u8>>
+    decreases t.len()
+{
+    if t.len() == 0 { Some(Seq::empty()) }
+    else if t[0] == '\\' { match esc_byte(t) { None => None, Some(p) =>
+        match dec_bytes(t.skip(p.0)) { None => None, Some(r) => Some(seq![p.1 as u8] + r) } } }
+    else { match dec_bytes(t.skip(1)) { None => None, Some(r) => Some(utf8_bytes(t[0]) + r) } }
+}
+pub open spec fn bytes_is(r: Result<Vec<u8>, ParseSequenceError>, want: Option<Seq<u8>>) -> bool {
+    match want { Some(w) => r matches Ok(o) && o@ == w, None => r is Err }
+}
